@@ -630,6 +630,14 @@ func (m *model) abstractValue(info *types.Info, name string, e ast.Expr, flags m
 					}
 					return jGoText{Text: txt, Cat: "type"}, nil
 				}}, nil
+			case ps.Len() == 1 && typeIs(ps.At(0).Type(), "lexergen/mode", "Mode") && isIntegerType(r):
+				// a number derived from a mode (a count, a size): the model value is 1
+				return &jFunc{Name: name, Call: func(a []any) (any, error) {
+					if o, ok := a[0].(*jObj); !ok || o.Kind != "mode" {
+						return nil, fmt.Errorf("%s applied to %T, not a mode", name, a[0])
+					}
+					return int64(1), nil
+				}}, nil
 			case ps.Len() == 0 && isIntSlice(r):
 				return &jFunc{Name: name, Call: func(a []any) (any, error) { return &jObj{Kind: "table"}, nil }}, nil
 			case ps.Len() == 1 && isIntSlice(ps.At(0).Type()) && isString(r):
@@ -1110,4 +1118,10 @@ func onInstances(c *Ctx, fn func(c *Ctx)) {
 		c.prefix = ""
 		c.tmplAll = saved
 	}
+}
+
+
+func isIntegerType(t types.Type) bool {
+	b, ok := t.Underlying().(*types.Basic)
+	return ok && b.Info()&types.IsInteger != 0
 }
